@@ -36,15 +36,21 @@ M1 = NT("<m1>", "A", "B")
 M2 = NT("<m2>", "B", "A")
 M3 = NT("<m3>", "A", "B")
 M4 = NT("<m4>", "C", "A")
-LETTER = {("A", "B", "<m1>"): "p", ("B", "A", "<m2>"): "q", ("A", "B", "<m3>"): "r", ("C", "A", "<m4>"): "s"}
-MSG_RULES = {"<m1>": Lit("1"), "<m2>": Lit("2"), "<m3>": Lit("3"), "<m4>": Lit("4")}
+M3R = NT("<m3>", "B", "A")   # the same message type as M3, travelling the other way
+M5 = NT("<m5>", "B", "C")    # between two external parties: invisible to the fuzzer, sliced out of the grammar
+M6 = NT("<m6>", "C", "B")
+LETTER = {("A", "B", "<m1>"): "p", ("B", "A", "<m2>"): "q", ("A", "B", "<m3>"): "r", ("C", "A", "<m4>"): "s", ("B", "A", "<m3>"): "t",
+          ("B", "C", "<m5>"): "", ("C", "B", "<m6>"): ""}
+MSG_RULES = {"<m1>": Lit("1"), "<m2>": Lit("2"), "<m3>": Lit("3"), "<m4>": Lit("4"), "<m5>": Lit("5"), "<m6>": Lit("6")}
+VALUE = {"p": "1", "q": "2", "r": "3", "s": "4", "t": "3"}
 
 
 def to_letters(n):
     """message-level abstraction of a rule body: message nonterminals become letters"""
     if isinstance(n, NT):
         if n.sender is not None:
-            return Lit(LETTER[(n.sender, n.recipient, n.name)])
+            letter = LETTER[(n.sender, n.recipient, n.name)]
+            return Lit(letter) if letter else Seq(())   # invisible messages are erased (projection to the fuzzer's view)
         return n
     if isinstance(n, (Seq, Alt)):
         return type(n)(tuple(to_letters(x) for x in n.items))
@@ -185,6 +191,28 @@ def relaxed_viable(rules_letters, word):
         return None
 
 
+def _visible(n) -> bool:
+    if isinstance(n, NT):
+        return n.sender is None or bool(LETTER.get((n.sender, n.recipient, n.name), "x"))
+    if isinstance(n, (Seq, Alt)):
+        return any(_visible(x) for x in n.items)
+    if isinstance(n, (Opt, Star, Plus, Rep)):
+        return _visible(n.x)
+    return True
+
+
+def _alt_with_invisible_branch(n) -> bool:
+    if isinstance(n, Alt):
+        if any(not _visible(x) for x in n.items):
+            return True
+        return any(_alt_with_invisible_branch(x) for x in n.items)
+    if isinstance(n, Seq):
+        return any(_alt_with_invisible_branch(x) for x in n.items)
+    if isinstance(n, (Opt, Star, Plus, Rep)):
+        return _alt_with_invisible_branch(n.x)
+    return False
+
+
 def family(tier: str) -> list:
     atoms = [M1, M2, M3]
     bodies = families.exprs(atoms, 2, full_binary_depth=1)
@@ -201,11 +229,27 @@ def family(tier: str) -> list:
     out.append({"<start>": Seq((NT("<x>"), NT("<y>"))), "<x>": Alt((M1, Seq((M1, M2)))), "<y>": Alt((M3, Seq((M2, M3))))})
     out.append({"<start>": Seq((M4, M1, Opt(M4), M2))})
     out.append({"<start>": Alt((Seq((M1, NT("<start>"))), M2))})
+    # one message type in both directions, reachable by the same type sequence, with different continuations
+    out.append({"<start>": Seq((M1, M2, Alt((Seq((M3, M2)), Seq((M3R, M1))))))})
+    out.append({"<start>": Seq((M1, Alt((Seq((M3, Plus(M2))), M3R))))})
+    for e in families.exprs([M3, M3R, M2], 2, full_binary_depth=1)[:: (4 if tier == "quick" else 1)]:
+        out.append({"<start>": Seq((M1, e))})
+    # messages between two external parties are sliced out; adjacent removable elements, removable elements under operators
+    out.append({"<start>": Seq((M1, M5, M6, M2, M3))})
+    out.append({"<start>": Seq((M1, M5, M6, M5, M2))})
+    out.append({"<start>": Seq((M1, Opt(Seq((M5, M6))), M2, Star(M5), M3))})
+    for e in families.exprs([M5, M6, M2, M3], 2, full_binary_depth=1)[:: (9 if tier == "quick" else 2)]:
+        out.append({"<start>": Seq((M1, e, M2))})
     res = []
     for rules in out:
         lg = RefGrammar({k: to_letters(v) for k, v in rules.items()})
         if "nullable_under_star_plus" in families.features(lg):
-            continue  # the forecaster re-parses the history with the Earley parser, which diverges on these (C06 known finding)
+            continue
+        if not WordMatcher(lg, "").member() and not any(viable(lg, c) for c in "pqrst"):
+            continue  # empty language after projection
+        if any(_alt_with_invisible_branch(b) for b in rules.values()):
+            continue  # Fandango DROPS an alternative that only talks between external parties, erasure would keep it as an
+            #           empty branch; the documentation does not say which: not judged  # the forecaster re-parses the history with the Earley parser, which diverges on these (C06 known finding)
         used = set()
         for b in rules.values():
             used_msgs(b, used)
@@ -231,7 +275,7 @@ def work(item):
         return res
     grammar = spec.grammar
     forecaster = PacketForecaster(grammar)
-    alphabet = sorted({LETTER[k] for k in LETTER if k[2] in rules})
+    alphabet = sorted({LETTER[k] for k in LETTER if k[2] in rules and LETTER[k]})
     seen = set()
     frontier = [("", DerivationTree(NonTerminal("<start>")))]
     depth = 0
@@ -285,7 +329,7 @@ def work(item):
                         continue  # only valid histories are extended
                     res["transitions"] += 1
                     t = copy.deepcopy(path.tree)
-                    msg = DerivationTree(NonTerminal(packet.node.symbol.name()), [DerivationTree(Terminal(str(int("pqrs".index(letter)) + 1)))],
+                    msg = DerivationTree(NonTerminal(packet.node.symbol.name()), [DerivationTree(Terminal(VALUE[letter]))],
                                          sender=packet.node.sender, recipient=packet.node.recipient)
                     try:
                         t.append(path.path[1:-1], msg)
